@@ -4,7 +4,7 @@ CHECK = {
  'rule': '(1) rapid multisets of 1-12 peer tips over small value ranges (many ties) through the real peer selection; (2) responder nodes with chains of '
          '3-260 blocks, block cache 4/20/515, optionally a reorganised tail, queried through the three sync RPC handlers with ids on/off the chain, '
          'removed blocks, malformed ids; (3) two in-process nodes over real libp2p connections on loopback: shared prefix, requester fork, better '
-         'responder fork shorter/longer than two rounds (fast vs block sync), requester fork built honestly or with self-only prevotes (so that the better chain can be the shorter one), clock far behind or up to date, directed cases for a fork at the requester's finalized block and for a fork deeper than the first common-block search window (9 rounds), then the requester processes the responder\'s tip; (3a) a requester with 2-3 connected peers (honest chain, taller chain with lower maxHeightPrevoted, optional twin) more than two rounds ahead: block sync must end on the chain of the peer the selection rule names. Non-trivial = (1) >=2 '
+         'responder fork shorter/longer than two rounds (fast vs block sync), requester fork built honestly or with self-only prevotes (so that the better chain can be the shorter one), clock far behind or up to date, directed cases for a fork at the finalized block of the requester and for a fork deeper than the first common-block search window (9 rounds), then the requester processes the responder\'s tip; (3a) a requester with 2-3 connected peers (honest chain, taller chain with lower maxHeightPrevoted, optional twin) more than two rounds ahead: block sync must end on the chain of the peer the selection rule names. Non-trivial = (1) >=2 '
          'different block IDs tie on the first two criteria, (2) a request spanning the cache boundary or the 103-block cap, (3) a convergence case in '
          'which the requester had to delete >=2 own blocks. Distinct by digest of the case',
  'level_text': 'Peer choice must be maximal in maxHeightPrevoted, then height, then block-ID frequency (validity predicate, random ties re-run 5x); '
